@@ -1,8 +1,11 @@
 """Shared generator / oracles of engine `xcdr` (XCDR1/XCDR2 serializer + deserializer; C09, C10, XCDR part of C07).
 
-Type AST   : ("prim", name) | ("str",) | ("enum", holder, [labels]) | ("seq", T, bound) | ("arr", T, n)
+Type AST   : ("prim", name) | ("str",) | ("enum", holder, [labels][, "a"|"m"]) | ("seq", T, bound) | ("arr", T, n)
              | ("struct", ext, [(id, opt, key, mu, T), ...])           ext in "FAM"
-Value AST  : int (bit pattern) | bytes (UTF-8 of a string) | list (sequence/array) | ("rec", [value or None])
+             | ("wstr",)                                                wide string, value = list of UTF-16 code units
+             | ("union", ext, disc prim, [(id, [labels], is_default, T), ...])
+Value AST  : int (bit pattern) | bytes (UTF-8 of a string) | list (sequence/array/wstring) | ("rec", [value or None])
+             | ("un", disc, None | (branch id, value))
 Text forms : see harness/src/bin/xcdr.rs (the grammar both the harness and the Lean driver parse).
 """
 import os, re, subprocess
@@ -59,7 +62,13 @@ def ty_text(t):
     if k == "str":
         return "s"
     if k == "enum":
-        return f"E{t[1]}[{','.join(str(x) for x in t[2])}]"
+        return f"E{t[1]}{t[3] if len(t) > 3 else ''}[{','.join(str(x) for x in t[2])}]"
+    if k == "wstr":
+        return "w"
+    if k == "union":
+        bs = ",".join(f"{i}{'d' if d else ''}{'[' + ','.join(str(x) for x in ls) + ']' if ls else ''}:{ty_text(bt)}"
+                      for (i, ls, d, bt) in t[3])
+        return "U" + t[1] + t[2] + "{" + bs + "}"
     if k == "seq":
         return f"Q{t[2] if t[2] else ''}({ty_text(t[1])})"
     if k == "arr":
@@ -81,6 +90,8 @@ def val_text(v):
         return "[" + ",".join(val_text(x) for x in v) + "]"
     if isinstance(v, tuple) and v[0] == "rec":
         return "{" + ",".join(val_text(x) for x in v[1]) + "}"
+    if isinstance(v, tuple) and v[0] == "un":
+        return f"<{v[1]}>" if v[2] is None else f"<{v[1]},{v[2][0]}:{val_text(v[2][1])}>"
     raise ValueError(v)
 
 
@@ -101,24 +112,53 @@ class Knobs:
         self.sentinel_id = kw.get("sentinel_id", 0)        # XCDR1: member id 1 in a nested mutable struct (D67)
         self.lc5_seq = kw.get("lc5_seq", 0)                # XCDR2: wide primitive sequence in a mutable struct (D62)
         self.ver = kw.get("ver", None)                     # encoding version the type is generated for
+        # follow-up 2 (all 0 by default: the case streams of the first delivery are unchanged)
+        self.wstr = kw.get("wstr", 0)                      # percent of member / element types that are wide strings
+        self.union = kw.get("union", 0)                    # ... that are unions
+        self.enum_ext = kw.get("enum_ext", 0)              # percent of enumerations declared appendable / mutable
+        self.union_ext = kw.get("union_ext", "FFFAAM")
+        self.union_ids = kw.get("union_ids", 1)
+        self.union_nobranch = kw.get("union_nobranch", 0)  # discriminator that selects no branch (finding U3)
 
 
 def gen_prim_name(r):
     return r.choice(PRIM_NAMES)
 
 
+def gen_new_construct(r, depth, kn):
+    """wide string / union with the probabilities of the knobs; None (and no random number drawn) when both are 0"""
+    if not (kn.wstr or kn.union):
+        return None
+    x = r.below(100)
+    if x < kn.wstr:
+        return ("wstr",)
+    if x < kn.wstr + kn.union and depth > 0:
+        return gen_union(r, depth - 1, kn)
+    return None
+
+
 def gen_elem_type(r, depth, kn):
+    n = gen_new_construct(r, depth, kn)
+    if n is not None:
+        return n
     c = r.below(10)
     if c < 5 or depth <= 0:
         return ("prim", gen_prim_name(r))
     if c < 7:
         return ("str",)
     if c < 8:
-        return gen_enum(r)
+        return gen_enum(r, kn)
     return gen_struct(r, depth - 1, kn)
 
 
-def gen_enum(r):
+def gen_enum(r, kn=None):
+    e = gen_enum0(r)
+    if kn is not None and kn.enum_ext and r.below(100) < kn.enum_ext:
+        e = e + (r.choice("am"),)
+    return e
+
+
+def gen_enum0(r):
     h = r.choice(["i8", "i16", "i32"])
     if r.chance(1, 4):
         return ("enum", h, [])
@@ -131,13 +171,16 @@ def gen_enum(r):
 
 
 def gen_member_type(r, depth, kn):
+    n = gen_new_construct(r, depth, kn)
+    if n is not None:
+        return n
     c = r.below(20)
     if c < 8 or depth <= 0:
         return ("prim", gen_prim_name(r))
     if c < 10:
         return ("str",)
     if c < 11:
-        return gen_enum(r)
+        return gen_enum(r, kn)
     if c < 14:
         return ("seq", gen_elem_type(r, depth, kn), r.choice([0, 0, 5, 100]))
     if c < 16:
@@ -239,6 +282,10 @@ def gen_value(r, t, kn=None, nested_mutable=False, ver=None):
         return gen_prim_val(r, t[1], kn)
     if k == "str":
         return gen_string(r, kn)
+    if k == "wstr":
+        return gen_wstring(r, kn)
+    if k == "union":
+        return gen_union_value(r, t, kn, ver)
     if k == "enum":
         bits = 8 * PRIMS[t[1]]
         if t[2]:
@@ -297,6 +344,42 @@ class _P:
         if c == "s":
             self.i += 1
             return ("str",)
+        if c == "w":
+            self.i += 1
+            return ("wstr",)
+        if c == "U":
+            self.i += 1
+            ext = self.peek(); self.i += 1
+            disc = self.prim()
+            self.eat("{")
+            bs = []
+            if self.peek() == "}":
+                self.i += 1
+                return ("union", ext, disc, bs)
+            while True:
+                bid = self.num()
+                dflt = self.peek() == "d"
+                if dflt:
+                    self.i += 1
+                ls = []
+                if self.peek() == "[":
+                    self.i += 1
+                    while self.peek() != "]":
+                        neg = self.peek() == "-"
+                        if neg:
+                            self.i += 1
+                        n = self.num()
+                        ls.append(-n if neg else n)
+                        if self.peek() == ",":
+                            self.i += 1
+                    self.i += 1
+                self.eat(":")
+                bs.append((bid, ls, dflt, self.ty()))
+                if self.peek() == ",":
+                    self.i += 1
+                    continue
+                self.eat("}")
+                return ("union", ext, disc, bs)
         if c == "Q":
             self.i += 1
             bound = self.num() if self.peek().isdigit() else 0
@@ -331,11 +414,15 @@ class _P:
         if c == "E":
             self.i += 1
             h = self.prim()
+            ext = ()
+            if self.peek() in ("a", "m"):
+                ext = (self.peek(),)
+                self.i += 1
             self.eat("[")
             ls = []
             if self.peek() == "]":
                 self.i += 1
-                return ("enum", h, ls)
+                return ("enum", h, ls) + ext
             while True:
                 neg = self.peek() == "-"
                 if neg:
@@ -346,7 +433,7 @@ class _P:
                     self.i += 1
                     continue
                 self.eat("]")
-                return ("enum", h, ls)
+                return ("enum", h, ls) + ext
         return ("prim", self.prim())
     def val(self):
         c = self.peek()
@@ -359,6 +446,18 @@ class _P:
         if c == "_":
             self.i += 1
             return None
+        if c == "<":
+            self.i += 1
+            d = self.num()
+            if self.peek() == ">":
+                self.i += 1
+                return ("un", d, None)
+            self.eat(",")
+            bid = self.num()
+            self.eat(":")
+            v = self.val()
+            self.eat(">")
+            return ("un", d, (bid, v))
         if c in "[{":
             close = "]" if c == "[" else "}"
             self.i += 1
@@ -395,6 +494,14 @@ def parse_val(s):
 def pairs(t, v, top=True):
     """yield (type, value, is_top) for every present sub-value"""
     yield (t, v, top)
+    if t[0] == "union":
+        if v[2] is not None:
+            bt = next((b[3] for b in t[3] if b[0] == v[2][0]), None)
+            if bt is not None:
+                yield from pairs(bt, v[2][1], False)
+        return
+    if t[0] == "wstr":
+        return
     if t[0] in ("seq", "arr"):
         for x in v:
             yield from pairs(t[1], x, False)
@@ -407,7 +514,7 @@ def pairs(t, v, top=True):
 def size_pos(t, ver):
     """mirror of `sizePos` (Model/XcdrWF.lean): every value of the type takes at least one byte"""
     k = t[0]
-    if k in ("prim", "str", "enum", "seq"):
+    if k in ("prim", "str", "enum", "seq", "wstr", "union"):
         return True
     if k == "arr":
         return t[2] > 0 and size_pos(t[1], ver)
@@ -425,6 +532,11 @@ def rough_size(t, v):
         return 1
     if k == "str":
         return 5 + len(v)
+    if k == "wstr":
+        return 6 + 2 * len(v)
+    if k == "union":
+        bt = next((b[3] for b in t[3] if v[2] is not None and b[0] == v[2][0]), None)
+        return 1 + (rough_size(bt, v[2][1]) if bt is not None else 0)
     if k in ("seq", "arr"):
         return sum(rough_size(t[1], x) for x in v)
     return sum(rough_size(m[4], f) for m, f in zip(t[2], v[1]) if f is not None)
@@ -507,8 +619,10 @@ def strict_tail(t, v, ver):
     fail or change. Used by the padding oracle (`C09_padding_recorded`): only then can the recorded pad count be
     checked to be not too small."""
     k = t[0]
-    if k in ("prim", "str", "enum"):
+    if k in ("prim", "str", "enum", "wstr"):
         return True
+    if k == "union":
+        return False
     if k == "seq":
         return True if len(v) == 0 else strict_tail(t[1], v[-1], ver)
     if k == "arr":
@@ -643,12 +757,25 @@ def mutate(r, b):
     return bytes(b[:4]) + r.bytes(r.range(0, 24))  # random body
 
 
+CORPUS_DE_W = [   # wide strings: length 0, unpaired surrogates, missing / non-zero terminator, truncated
+    "de SF{0:w} 0001000000000000",
+    "de SF{0:w} 00010000020000004100ffff",
+    "de SF{0:w} 000100000200000000d80000",
+    "de SF{0:w} 000100000300000000dc00d80000",
+    "de SF{0:w} 00010000030000003dd800de0000",
+    "de SF{0:w} 0001000003000000410042004300",
+    "de SF{0:w} 00010000ffffffff41000000",
+    "de SF{0:Q(w)} 00010000ffffffff",
+    "de SF{0:w,1:u8} 00010000010000000000070000",
+]
+
+
 def c07_cases(rng, tier):
     """cases for the XCDR-decoder part of C07: `de <ty> <hex>` lines (corpus, mutated valid encodings, random bytes)"""
     r = rng
     n = 1500 if tier == "quick" else 40000
-    kn = Knobs(big_id=5, c8_high=5, mut_absent_v2=30, empty_struct=3, long=1, maxlong=120)
-    cases = [Case([l]) for l in CORPUS_DE]
+    kn = Knobs(big_id=5, c8_high=5, mut_absent_v2=30, empty_struct=3, long=1, maxlong=120, wstr=8, enum_ext=30)
+    cases = [Case([l]) for l in CORPUS_DE] + [Case([l]) for l in CORPUS_DE_W]
     base = []
     for _ in range(n // 5):
         t = gen_type(r, kn)
@@ -1154,3 +1281,199 @@ def evolve_type(r, tw, ver, depth=0):
     if e == 4:
         return ("struct", ext, ms + [(max(ids + [1]) + 1, False, True, False, ("prim", "u32"))]), "illegal"   # key extra
     return ("struct", ext, [(max(ids + [1]) + 1 + j, False, False, False, ("prim", "u32")) for j in range(2)]), "illegal"
+
+
+
+# ----------------------------------------------------------------------------- wide strings, unions, enum extensibility
+# (follow-up 2: constructs added after the first delivery; `has_union` types are compared on the oracle only)
+DISC_KINDS = ["u8", "i8", "u16", "i16", "i32", "u32"]          # what `get_discriminator_id_as_i32` accepts
+WSAMPLES = [[], [97], [97, 98, 99], [0x20AC], [0xD83D, 0xDE00], [97, 0xD83D, 0xDE00, 98], [0xD800, 0xDC00, 0xDBFF, 0xDFFF],
+            [0xFFFF], [1], [0xD7FF, 0xE000]]
+
+
+def contains(t, kinds):
+    """does the type contain a construct of one of the kinds ("wstr", "union", "enumx")"""
+    k = t[0]
+    if k in kinds or (k == "enum" and len(t) > 3 and "enumx" in kinds):
+        return True
+    if k in ("seq", "arr"):
+        return contains(t[1], kinds)
+    if k == "struct":
+        return any(contains(m[4], kinds) for m in t[2])
+    if k == "union":
+        return any(contains(b[3], kinds) for b in t[3])
+    return False
+
+
+def disc_as_i32(kind, n):
+    """`get_discriminator_id_as_i32` (deserializer.rs:175)"""
+    bits = 8 * PRIMS[kind]
+    if kind.startswith("i") and n >= 2 ** (bits - 1):
+        n -= 2 ** bits
+    if kind == "u32" and n >= 2 ** 31:
+        n -= 2 ** 32
+    return n
+
+
+def select_branch(t, d):
+    """the branch a discriminator value selects: first explicit label, else the (last) default branch, else None"""
+    x = disc_as_i32(t[2], d)
+    for b in t[3]:
+        if x in b[1]:
+            return b
+    dfl = [b for b in t[3] if b[2]]
+    return dfl[-1] if dfl else None
+
+
+def gen_wstring(r, kn):
+    c = r.below(10)
+    if c < 6:
+        return list(r.choice(WSAMPLES))
+    out = []
+    for _ in range(r.range(1, 12) if c < 9 else r.range(40, max(200, min(kn.maxlong, 40000)))):
+        k = r.below(8)
+        if k < 4:
+            out.append(r.range(32, 126))
+        elif k < 6:
+            out.append(r.choice([0xE9, 0x20AC, 0x7FF, 0x800, 0xD7FF, 0xE000, 0xFFFD, r.range(0xA0, 0xD7FF)]))
+        else:
+            cp = r.choice([0x10000, 0x1F600, 0x10FFFF, r.range(0x10000, 0x10FFFF)]) - 0x10000
+            out += [0xD800 + (cp >> 10), 0xDC00 + (cp & 0x3FF)]
+    return out
+
+
+def gen_union(r, depth, kn, ext=None):
+    ext = ext or r.choice(kn.union_ext)
+    disc = r.choice(DISC_KINDS)
+    bits = 8 * PRIMS[disc]
+    signed = disc.startswith("i")
+    n = r.range(1, 4)
+    pool = [0, 1, 2, 3, 5, 7, 100] + ([-1, -2, -(2 ** (bits - 1))] if signed else [2 ** bits - 1 if bits < 32 else 2 ** 31 - 1])
+    labels = r.shuffle(pool)
+    dpos = r.below(n + 1) if r.chance(2, 3) else None          # position of the default branch (None: no default)
+    bs, used = [], 0
+    for i in range(n):
+        is_d = dpos == i
+        k = 0 if (is_d and r.chance(2, 3)) else r.range(1, 2)
+        ls = labels[used:used + k]
+        used += k
+        bt = gen_member_type(r, depth, kn) if not r.chance(1, 3) else ("prim", gen_prim_name(r))
+        bs.append((i + 1, sorted(ls), is_d, bt))
+    if kn.union_ids and r.chance(1, 4):
+        ids = r.shuffle([1, 2, 3, 4, 5, 9, 100])[:n]
+        bs = [(ids[i],) + b[1:] for i, b in enumerate(bs)]
+    return ("union", ext, disc, bs)
+
+
+def gen_union_value(r, t, kn, ver):
+    bits = 8 * PRIMS[t[2]]
+    explicit = [x for b in t[3] for x in b[1]]
+    c = r.below(10)
+    if explicit and c < 6:
+        x = r.choice(explicit)
+    elif c < 9:
+        x = r.choice([0, 1, 4, 6, 8, 99, -3 if t[2].startswith("i") else 200])
+    else:
+        x = r.range(0, 2 ** (bits - 1) - 1)
+    if not (-(2 ** (bits - 1)) <= x < 2 ** bits):
+        x = 0
+    d = x % 2 ** bits
+    b = select_branch(t, d)
+    if b is None:
+        if r.below(100) < kn.union_nobranch:
+            return ("un", d, None)
+        b = t[3][0]
+        d = (b[1][0] % 2 ** bits) if b[1] else d        # b is not selected by d only if it has labels
+        b = select_branch(t, d)
+    return ("un", d, (b[0], gen_value(r, b[3], kn, True, ver)))
+
+
+UNION_CAUSES = [
+    "xcdr1-appendable-union-decoder-reads-dheader",        # U1
+    "union-in-collection-serialized-as-final",             # U2
+    "mutable-union-reader-position-not-advanced",          # U3
+    "union-discriminator-selects-no-branch-not-decodable",  # U4
+]
+
+
+def union_constructs(t, v, ver):
+    """constructs around unions the implementation does not round-trip (each a known finding, see notes/xcdr.md F8)"""
+    out = set()
+    for (tt, vv, _) in pairs(t, v):
+        if tt[0] == "union":
+            if tt[1] == "A" and ver == 1:
+                out.add(UNION_CAUSES[0])
+            if tt[1] == "M":
+                out.add(UNION_CAUSES[2])
+            if vv[2] is None:
+                out.add(UNION_CAUSES[3])
+        if tt[0] in ("seq", "arr") and tt[1][0] == "union" and len(vv) > 0:
+            if tt[1][1] == "M" or (tt[1][1] == "A" and ver == 2):
+                out.add(UNION_CAUSES[1])
+    return out
+
+
+def attribute_ext(t, v, ver):
+    cs = union_constructs(t, v, ver)
+    for c in UNION_CAUSES:
+        if c in cs:
+            return c
+    return None
+
+
+def union_as_struct(t, v):
+    """the standard defines the encoding of a union value as that of the structure made of its discriminator and its
+    selected member (rules (26)-(28) repeat (17), (23)/(21) and (29)/(30) member for member): final / appendable /
+    mutable union <d, id:x> = final / appendable / mutable structure {0 (must-understand): disc, id: branch type}
+    with the value {d, x}. Returns the (type, value) with every union replaced, or None when a union sits inside a
+    collection (elements would need different types)."""
+    k = t[0]
+    if k == "union":
+        ms = [(0, False, False, True, ("prim", t[2]))]
+        fs = [v[1]]
+        if v[2] is not None:
+            bt = next((b[3] for b in t[3] if b[0] == v[2][0]), None)
+            if bt is None:
+                return None
+            r = union_as_struct(bt, v[2][1])
+            if r is None:
+                return None
+            ms.append((v[2][0], False, False, False, r[0]))
+            fs.append(r[1])
+        return ("struct", t[1], ms), ("rec", fs)
+    if k in ("seq", "arr"):
+        if contains(t[1], ("union",)):
+            return None
+        return t, v
+    if k == "struct":
+        ms, fs = [], []
+        for m, f in zip(t[2], v[1]):
+            if f is None:
+                # a member without value contributes no value bytes: its type does not matter
+                ms.append(m[:4] + (("prim", "u8"),) if contains(m[4], ("union",)) else m); fs.append(None)
+                continue
+            r = union_as_struct(m[4], f)
+            if r is None:
+                return None
+            ms.append(m[:4] + (r[0],)); fs.append(r[1])
+        return ("struct", t[1], ms), ("rec", fs)
+    return t, v
+
+
+def oracle_only(ctx, engine, cases, nontrivial=None, oracle=None):
+    """cases whose constructs the Lean model does not cover (unions): run on the implementation only and judged by the
+    oracle only (no model comparison). Book-keeping as in RunCtx.differential."""
+    from vlib.core import run_cases, harness_bin, case_hash
+    impl, _ = run_cases([harness_bin(engine)], cases)
+    for c, io in zip(cases, impl):
+        ctx.stats["evaluations"] += 1
+        h = case_hash(c.lines)
+        nt = nontrivial(c, io) if nontrivial else True
+        if nt and h not in ctx._seen:
+            ctx._seen.add(h)
+            ctx.stats["distinct_nontrivial"] += 1
+        if oracle:
+            for v in oracle(c, io) or []:
+                v.setdefault("ops", c.lines)
+                ctx.violations.append(v)
+    return impl
